@@ -374,6 +374,10 @@ type c16exch struct {
 	herr   error       // scripted handler error
 	size   [2]uint64   // size parameters for the case line
 	pre    interface{} // when set: the caller hands in a response struct still holding this earlier response (raft reuses them)
+	// InstallSnapshot only: the handler answers WITHOUT reading the body (a consumer that refuses the snapshot at once, e.g. for a
+	// stale term).  The exchange itself may then end in an error (the receiver closes the stream on the unread bytes); what is
+	// checked is that the NEXT exchanges of the pair are untouched by the leftover bytes.
+	nodrain bool
 }
 
 func c16genExchange(r *rng, kind int, bodySize int, maxBody int, prefill bool) *c16exch {
@@ -405,7 +409,14 @@ func c16genExchange(r *rng, kind int, bodySize int, maxBody int, prefill bool) *
 				bodySize = r.intn(maxBody + 1)
 			}
 		}
+		if r.chance(1, 5) {
+			e.nodrain = true
+			bodySize = 1 + r.intn(1500)
+		}
 		e.body = c16fill(r, bodySize)
+		if e.nodrain {
+			e.body[0] = 0xFF // the receiver's connection loop meets the leftover next: not an RPC type, it closes the stream (no phantom request)
+		}
 		e.chunky = r.chance(1, 2)
 		e.req = &raft.InstallSnapshotRequest{RPCHeader: c16header(r), SnapshotVersion: raft.SnapshotVersion(r.intn(2)),
 			Term: c16u64(r), Leader: c16bytes(r, 40), LastLogIndex: c16u64(r), LastLogTerm: c16u64(r),
@@ -552,10 +563,6 @@ type c16aHandler struct {
 
 func (h *c16aHandler) handle(rpc raft.RPC, hb bool) {
 	s := &c16seen{cmd: rpc.Command, hb: hb}
-	if rpc.Reader != nil {
-		s.hasBody = true
-		s.body, s.bodyErr = io.ReadAll(rpc.Reader)
-	}
 	h.mu.Lock()
 	i := len(h.seen)
 	var e *c16exch
@@ -566,6 +573,12 @@ func (h *c16aHandler) handle(rpc raft.RPC, hb bool) {
 		h.extra++
 	}
 	h.mu.Unlock()
+	if rpc.Reader != nil {
+		s.hasBody = true
+		if e == nil || !e.nodrain {
+			s.body, s.bodyErr = io.ReadAll(rpc.Reader)
+		}
+	}
 	if e == nil {
 		rpc.Respond(nil, errors.New("c16: unexpected rpc"))
 		return
@@ -601,7 +614,11 @@ func c16check(cw *caseWriter, tag string, e *c16exch, s *c16seen, callerResp int
 		cw.monitor("C16", tag, "request-field-differs", "%s request: %s", kn, c16join(d))
 		ok = false
 	}
-	if e.kind == 4 {
+	if e.kind == 4 && e.nodrain {
+		if callerErr != nil || !delivered {
+			return true // the receiver closed the stream on the unread body: a failed exchange, reported as an error
+		}
+	} else if e.kind == 4 {
 		if !s.hasBody || s.bodyErr != nil {
 			cw.monitor("C16", tag, "snapshot-body-differs", "InstallSnapshot: body reader present=%v, read error %v after %d of %d bytes", s.hasBody, s.bodyErr, len(s.body), len(e.body))
 			ok = false
